@@ -201,7 +201,7 @@ impl Exec {
                 vec![crate::sections::ver_iter(self, op)]
             }
             "symver" => crate::sections::symver(self, op),
-            "open" | "q" => crate::elffile::file_op(self, op),
+            "open" | "q" | "ehdr_edit" => crate::elffile::file_op(self, op),
             "sopen" | "sq" | "sbulk" => crate::stream::stream_op(self, op),
             other => panic!("harness: unknown op {other}"),
         }
